@@ -328,7 +328,7 @@ fn judge(path: &str, e: &E, expected: &Result<IBig, Vec<Err1>>, got: &Outcome) -
         _ => "leaf".to_string(),
     };
     match (expected, got) {
-        (_, Outcome::Panic(m)) => Some(Verdict::fail(format!("panic:{}", m.split_whitespace().next().unwrap_or("?").trim_start_matches("/repo/")), format!("{path}: X is {} panicked: {m}", e.text()))),
+        (_, Outcome::Panic(m)) => Some(Verdict::fail(format!("panic:{}", m.split_whitespace().next().unwrap_or("?")), format!("{path}: X is {} panicked: {m}", e.text()))),
         (_, Outcome::Harness(m)) => Some(Verdict::Discard(format!("harness:{}", m.chars().take(40).collect::<String>()))),
         (Ok(v), Outcome::Sols(sols)) => {
             if sols.len() == 1 && sols[0].eq_struct(&T::Int(v.clone())) {
